@@ -273,6 +273,7 @@ func (e *Engine) VerifyFunction(fn *ssa.Function, opts VerifyOpts) (u *Unit) {
 			}
 		}
 	}
+	st.cells["ghost.now"] = u.W.Const("now@0", SInt)
 	x.entry = st.Clone()
 	x.bindParams()
 	pkPath, _ := fnKey(fn)
